@@ -8,29 +8,31 @@ cpu.prv after every event, final verdict).
 """
 from vlib import core, emuhist
 
-CFG = {"C04": ("EmuMC_C04.cfg", "thread life-cycle, 2 threads, 2 CPUs + vCPU"),
-       "C05": ("EmuMC_C05.cfg", "occupancy/affinity, 4 threads, 2 looms")}
+CFG = {"C04": [("EmuMC_C04.cfg", "thread life-cycle, 2 threads, 2 CPUs + vCPU", None)],
+       "C05": [("EmuMC_C05.cfg", "occupancy/affinity, 4 threads, 2 looms", 2500),
+               ("EmuMC_C05X.cfg", "occupancy/affinity, 2 looms whose threads have the same TIDs", 1200)]}
 
 
 def main(pid, tier):
     ck = core.Check(pid, "model_checking", tier)
     bdir = core.build("hooks")
-    cfg, label = CFG[pid]
-    r, g = emuhist.explore(cfg)
-    ck.add_tlc(r, "EmuMC/%s (%s)" % (cfg, label))
-    if r.violated:
-        ck.violation("model %s violates %s" % (cfg, r.violated), {"tlc.out": r.out[-20000:]})
-    ck.phase("tlc")
-    ntr = len(g.trans)
-    ck.notes["model_transitions"] = {"total": ntr,
-                                     "accepted": sum(1 for t in g.trans if t["ok"] and not t["un"]),
-                                     "rejected": sum(1 for t in g.trans if not t["ok"] and not t["un"]),
-                                     "unspecified": sum(1 for t in g.trans if t["un"])}
-    emuhist.conformance(ck, bdir, g, tier, limit_quick=2500 if pid == "C05" else None,
-                        limit_thorough=None, label=pid)
-    ck.phase("conformance")
-    ck.assumptions += ["rows are identified through the names in thread.row/cpu.row (looms sorted by name)",
-                       "a dead thread executing again and OAr to the current CPU are Unspecified (any outcome accepted)"]
+    ck.notes["model_transitions"] = {}
+    for cfg, label, lim in CFG[pid]:
+        r, g = emuhist.explore(cfg)
+        ck.add_tlc(r, "EmuMC/%s (%s)" % (cfg, label))
+        if r.violated:
+            ck.violation("model %s violates %s" % (cfg, r.violated), {"tlc.out": r.out[-20000:]})
+        ck.phase("tlc " + cfg)
+        ntr = len(g.trans)
+        ck.notes["model_transitions"][cfg] = {"total": ntr,
+                                              "accepted": sum(1 for t in g.trans if t["ok"] and not t["un"]),
+                                              "rejected": sum(1 for t in g.trans if not t["ok"] and not t["un"]),
+                                              "unspecified": sum(1 for t in g.trans if t["un"])}
+        emuhist.conformance(ck, bdir, g, tier, limit_quick=lim, limit_thorough=None,
+                            pairs=800 if tier == "quick" else 20000,
+                            label=pid if cfg.endswith("_%s.cfg" % pid) else pid + "/same-tids")
+        ck.phase("conformance " + cfg)
+    ck.assumptions += ["rows are identified through the names in thread.row/cpu.row (looms sorted by name)"]
     return ck.finish(rule="one emulator history per transition of the TLC state graph (shortest path to the source "
                           "state + event + shortest legal completion); non-trivial = history of at least 2 events; "
                           "distinct by event list")
